@@ -1153,3 +1153,96 @@ func c09ErrorsRecorded(c *Ctx, r *Report, rule string) {
 	}
 	r.Floor(rule, 2, "add and inherit")
 }
+
+// ---------------------------------------------------------------- C12-e one token per placeholder
+
+// c12TokenPerPlaceholder (C12-e/token-per-placeholder): the specification is
+// stated per %{token}: each takes the text up to the first following
+// occurrence of *its own* trailing literal. The pattern compiler's loop finds
+// one placeholder per iteration; an iteration may end with an error return,
+// with the "no more placeholders" break - or by appending exactly that
+// placeholder as a token. No path from the start of an iteration back to the
+// loop's next iteration may avoid the append (merging or dropping a
+// placeholder changes which delimiter occurrences are consumed).
+func c12TokenPerPlaceholder(c *Ctx, r *Report, rule string) {
+	const pkg = "rare/pkg/matchers/dissect"
+	fi := c.MustFunc(r, rule, pkg, "CompileEx")
+	if fi == nil {
+		return
+	}
+	info := fi.Pkg.TypesInfo
+	fg := NewFGraph(fi.Decl.Body, info)
+	n := 0
+	ast.Inspect(fi.Decl.Body, func(x ast.Node) bool {
+		fs, ok := x.(*ast.ForStmt)
+		if !ok {
+			return true
+		}
+		isTokenAppend := func(nd *FNode) bool {
+			as, ok := nd.N.(*ast.AssignStmt)
+			if !ok || len(as.Lhs) != 1 || len(as.Rhs) != 1 {
+				return false
+			}
+			ce, ok := ast.Unparen(as.Rhs[0]).(*ast.CallExpr)
+			if !ok || calleeName(info, ce) != "builtin.append" || len(ce.Args) != 2 {
+				return false
+			}
+			sl, ok := info.TypeOf(ce.Args[0]).Underlying().(*types.Slice)
+			if !ok || !isNamed(sl.Elem(), pkg, "token") {
+				return false
+			}
+			return identObj(info, as.Lhs[0]) != nil && identObj(info, as.Lhs[0]) == identObj(info, ce.Args[0])
+		}
+		has := false
+		for _, nd := range fg.Nodes {
+			if nd.N != nil && within(fs.Body, nd.N.Pos()) && isTokenAppend(nd) {
+				has = true
+			}
+		}
+		if !has {
+			return true
+		}
+		n++
+		bodyHead := -1
+		targets := map[int]bool{}
+		for _, nd := range fg.Nodes {
+			if nd.N == nil && nd.Block != nil && nd.Block.Stmt == ast.Stmt(fs) {
+				switch nd.Block.Kind.String() {
+				case "ForBody":
+					bodyHead = nd.ID
+				case "ForLoop", "ForPost":
+					targets[nd.ID] = true
+				}
+			}
+		}
+		if bodyHead < 0 {
+			r.Undecided(rule, fi.Name, "placeholder loop", c.Pos(fs.Pos()), "loop structure not recognised")
+			return true
+		}
+		if len(targets) == 0 {
+			targets[bodyHead] = true // `for { }`: the back edge re-enters the body
+		}
+		set := fg.ReachSet(bodyHead, isTokenAppend, nil)
+		set[bodyHead] = true
+		var via *FNode
+		for id := range set {
+			nd := fg.Nodes[id]
+			if nd.N != nil && isTokenAppend(nd) {
+				continue
+			}
+			for _, e := range nd.Succ {
+				if targets[e.To] && (id != bodyHead || e.To != bodyHead) {
+					via = nd
+				}
+			}
+		}
+		pos := fs.Pos()
+		if via != nil && via.N != nil {
+			pos = via.N.Pos()
+		}
+		r.Check(via == nil, rule, fi.Name, "for .. %{", c.Pos(pos), "path: an iteration that found a placeholder ends with an error, or appends it as a token, before the next iteration",
+			"the pattern compiler can start its next iteration without having appended the placeholder it just parsed as a token of its own: placeholders are merged or dropped, so the text a token takes is no longer delimited by the first following occurrence of its own trailing literal (e.g. `%{}a%{}b` stops at the first b, not the first b after the first a)")
+		return true
+	})
+	r.Floor(rule, 1, "the placeholder loop of CompileEx")
+}
